@@ -18,10 +18,14 @@ var importRe = regexp.MustCompile(`(?m)^(\s*)(?:sync\s+)?"sync"\s*$`)
 
 func main() {
 	out := os.Args[1]
-	pkg := "/repo/samlidp"
+	repo := "/repo"
+	if d := os.Getenv("VERIF_REPO"); d != "" {
+		repo = d
+	}
+	pkg := repo + "/samlidp"
 	repl := map[string]string{}
 	var files []string
-	for _, d := range []string{"/repo", "/repo/samlidp", "/repo/samlsp", "/repo/xmlenc", "/repo/logger"} {
+	for _, d := range []string{repo, repo + "/samlidp", repo + "/samlsp", repo + "/xmlenc", repo + "/logger"} {
 		fs, _ := filepath.Glob(d + "/*.go")
 		files = append(files, fs...)
 	}
@@ -38,7 +42,7 @@ func main() {
 			continue
 		}
 		nb := importRe.ReplaceAll(b, []byte(`${1}sync "github.com/crewjam/saml/samlidp/vsync"`))
-		dst := filepath.Join(out, strings.ReplaceAll(strings.TrimPrefix(f, "/repo/"), "/", "__"))
+		dst := filepath.Join(out, strings.ReplaceAll(strings.TrimPrefix(f, repo+"/"), "/", "__"))
 		if err := os.WriteFile(dst, nb, 0o644); err != nil {
 			panic(err)
 		}
